@@ -108,3 +108,6 @@ package sync
 //@   cs-pure mapUnchanged(m.data)
 //@   atomic [effect] mapIsDelete(m.data, key)
 //@   atomic [callback] (old(present(m.data, key)) ==> callCount(onDeleteFunc) == 1 && callArg(onDeleteFunc, 0, 0) == old(m.data[key])) && (!old(present(m.data, key)) ==> callCount(onDeleteFunc) == 0)
+//
+//@ func NewMap() (m *Map)
+//@   ensures [fresh] m != nil && fresh(m)
